@@ -961,8 +961,10 @@ def _env_invariance(chk, group):
             if environments[name].get("@monotone") and group not in environments[name].get("@strict_groups", "").split(","):
                 if not (got is not None and got.startswith("OK") and not out.startswith("OK")):
                     continue        # a degraded host may fail where the default one succeeds - it may not accept what the default one refuses
-            if name.startswith("python -bb") and got is not None and not out.startswith("OK") and not got.startswith("OK") and " OK " not in out and " OK " not in got:
-                continue        # -bb turns Python's own bytes/str comparison of a wrongly typed member into a BytesWarning: a rejection either way
+            if name.startswith("python -bb") and got is not None and not out.startswith("OK") and not got.startswith("OK") and " OK " not in out and " OK " not in got \
+                    and re.search(r"-bytes-|not-a-string|-as-bytes", label):
+                continue        # -bb turns Python's own bytes/str comparison of a WRONGLY TYPED member (a text member given as bytes) into a BytesWarning: a rejection either way.
+                                # (Only for those cases: a well-typed response whose refusal turns into a BytesWarning - bytes formatted into a message - is reported.)
             if got != out:
                 chk.violation(f"outcome depends on the process environment: case '{label}' gives '{out[:60]}' by default but '{str(m.get(label))[:60]}' under {name}",
                               f"environment {group} {name.split(' (')[0]} {label.split(' ')[0]} {label.split(' ')[1] if ' ' in label else ''}",
